@@ -68,10 +68,10 @@ Theorem num_add_Z : forall a b, wf_num a -> wf_num b ->
 Proof. exact num_add_spec. Qed.
 Print Assumptions num_add_Z.
 
+(** round 2: no premise any more (sexp_sub FIX_FIX hands over to bignums, fix C04-sub-fixnum-difference-overflow) *)
 Theorem num_sub_Z : forall a b, wf_num a -> wf_num b ->
-  (is_fix a = true -> is_fix b = true -> fits_fix (nval a - nval b) = true) ->
   nval (num_sub a b) = nval a - nval b /\ canon (num_sub a b) /\ wf_num (num_sub a b).
-Proof. exact num_sub_spec. Qed.
+Proof. exact num_sub_total_spec. Qed.
 Print Assumptions num_sub_Z.
 
 (** VM fast paths (vm.c:1763-1820): exact for all operands, including the overflow hand-over *)
